@@ -168,7 +168,11 @@ def compare(ctx, cfg, what, oa, ob, map_em, map_rc, att_allow=None, key_extra=No
     key = "%s:%s:%s" % (cfg["kind"], what, json.dumps({k: v for k, v in cfg.items()}, sort_keys=True) + (key_extra or ""))
     replay = {"kind": "sym", "what": what, "cfg": cfg, "extra": key_extra}
     if len(oa) != len(ob):
-        ctx.fail(key, "%s tracer: %d solutions, after %s %d solutions; %s" % (cfg["kind"], len(oa), what, len(ob), json.dumps(cfg)), replay)
+        def dups(o):
+            return sum(1 for i in range(len(o)) for j in range(i) if o[i]["L"] == o[j]["L"] and o[i]["tof"] == o[j]["tof"]
+                       and o[i]["em"] == o[j]["em"] and o[i]["rc"] == o[j]["rc"])
+        ctx.fail(key, "%s tracer: %d solutions (%d exact duplicates), after %s %d solutions (%d exact duplicates); %s" % (
+            cfg["kind"], len(oa), dups(oa), what, len(ob), dups(ob), json.dumps(cfg)), replay)
         return
     used = set()
     for i, a in enumerate(oa):
@@ -177,7 +181,8 @@ def compare(ctx, cfg, what, oa, ob, map_em, map_rc, att_allow=None, key_extra=No
             if math.hypot(a["em"][0], a["em"][1]) < 0.08 or math.hypot(a["rc"][0], a["rc"][1]) < 0.08:
                 continue      # near-vertical through exponential layers (beta < ~0.1): beta_tolerance / cancellation regime, C01's finding F10
         if cfg["kind"] in ("specialized", "basic"):
-            if 1.8 * math.hypot(a["em"][0], a["em"][1]) < 0.0055 or 1.8 * math.hypot(a["rc"][0], a["rc"][1]) < 0.0055:
+            he, hr = math.hypot(a["em"][0], a["em"][1]), math.hypot(a["rc"][0], a["rc"][1])
+            if 0 < 1.8 * he < 0.0055 or 0 < 1.8 * hr < 0.0055:
                 ctx.extra["skipped_beta_tolerance"] = ctx.extra.get("skipped_beta_tolerance", 0) + 1
                 continue      # beta <= beta_tolerance: the analytic tracer switches to its beta = 0 forms (C01 known finding)
             if not np.all(np.isfinite(a["B"])) or a["B"][1] + 2 * a["B"][0] > 0.05 * a["L"]:
@@ -285,6 +290,11 @@ def probe_cfg(ctx, cfg, rng):
     except Exception as e:
         ctx.fail("%s:swap-raises:%s" % (cfg["kind"], key_cfg), "%s tracer raises %r after swapping the endpoints of %s" % (cfg["kind"], e, key_cfg),
                  {"kind": "sym", "what": "swap", "cfg": cfg})
+    rho_geom = math.hypot(t[0] - f[0], t[1] - f[1])
+    if 0 < rho_geom < 1e-6:
+        # horizontal separation at the rounding level of the coordinates: a translation / rotation of the coordinates rounds it to
+        # a different separation (possibly 0), i.e. to a different geometry; only the exact swap is a symmetry of such inputs
+        return
     # translate
     ox, oy = float(rng.choice([250.0, -1234.5, 1e4, 37.25])), float(rng.choice([-90.0, 4321.0, 0.0, 512.5]))
     f2, t2 = [f[0] + ox, f[1] + oy, f[2]], [t[0] + ox, t[1] + oy, t[2]]
@@ -332,9 +342,16 @@ def rand_gradient_cfg(rng, kind):
     ox, oy = float(rng.choice([0.0, 0.0, 310.0, -45.5])), float(rng.choice([0.0, 77.0, -1200.25]))
     f = [ox, oy, float(z0)]
     t = [ox + rho * math.cos(az), oy + rho * math.sin(az), float(z1)]
+    vert = rng.random()
+    if vert < 0.10:
+        t[0], t[1] = f[0], f[1]                                   # receiver exactly above / below the source (rho = 0)
+    elif vert < 0.14:
+        t[0], t[1] = f[0] + rng.choice([1e-13, -3e-14, 0.0]), f[1] + rng.choice([0.0, 2e-13])     # rho at rounding level
     if rng.random() < 0.05:
         t[2] = 5.0                      # above the ice
     cfg = {"kind": kind, "from": [float(x) for x in f], "to": [float(x) for x in t], "ice_class": ice_class, "zu_class": cls}
+    if vert < 0.14:
+        cfg["vertical"] = True
     if kind == "basic":
         cfg["dz"] = rng.choice([1, 2])
     return cfg
@@ -346,21 +363,43 @@ def rand_uniform(rng):
 
 def rand_layered(rng):
     c = C18.rand_layered_cfg(rng, ice=C18.rand_stack(rng, kinds=("uniform",)) if rng.random() < 0.7 else None)
-    return {"kind": "layered", **c}
+    interior = [l["lo"] for l in c["ice"]["layers"][:-1]]
+    tags = []
+    if interior and rng.random() < 0.35:
+        which = rng.choice(["to", "from", "both"])               # an endpoint exactly on an interior layer boundary
+        if which in ("to", "both"):
+            c["to"][2] = float(rng.choice(interior))
+        if which in ("from", "both"):
+            c["from"][2] = float(rng.choice(interior))
+        tags.append("on_interior_boundary:" + which)
+    v = rng.random()
+    if v < 0.12:
+        c["to"][0], c["to"][1] = c["from"][0], c["from"][1]      # exactly vertical
+        tags.append("vertical")
+    elif v < 0.15:
+        c["to"][0], c["to"][1] = c["from"][0] + 1e-13, c["from"][1]
+        tags.append("vertical_rounding")
+    return {"kind": "layered", **c, "tags": tags}
 
 
 def probes(ctx, scale):
     rng = ctx.rng
-    plan = [("specialized", ctx.n(60, 1500)), ("uniform", ctx.n(80, 2000)), ("layered", ctx.n(14, 300)), ("basic", ctx.n(5, 80))]
+    plan = [("specialized", ctx.n(60, 1500)), ("uniform", ctx.n(80, 2000)), ("layered", ctx.n(26, 300)), ("basic", ctx.n(5, 80))]
     # the F2 witness (fixed by b971f54): reflections with a source away from x = y = 0
     probe_cfg(ctx, {"kind": "uniform", "ice": {"n": 1.5, "lo": -500.0, "hi": 0.0, "above": 1.0, "below": 1.8},
                     "from": [100.0, 50.0, -100.0], "to": [400.0, 50.0, -200.0], "max_reflections": 1}, rng)
+    # exactly vertical rays (launch angle exactly 0.0): antenna directly above / below the vertex
+    for kind in ("specialized", "basic"):
+        for f, t in (([10.0, 20.0, -500.0], [10.0, 20.0, -100.0]), ([10.0, 20.0, -100.0], [10.0, 20.0, -500.0])):
+            probe_cfg(ctx, {"kind": kind, "from": f, "to": t, "ice_class": "AntarcticIce", "zu_class": "ss", "vertical": True}, rng)
     counts = {}
     for kind, n in plan:
         for _ in range(n * scale):
             cfg = rand_uniform(rng) if kind == "uniform" else rand_layered(rng) if kind == "layered" else rand_gradient_cfg(rng, kind)
             ctx.case(key=(kind, json.dumps(cfg, sort_keys=True)), sample={"probe": kind, "cfg": cfg})
             counts[kind] = counts.get(kind, 0) + 1
+            for tg in (["vertical"] if cfg.get("vertical") else []) + list(cfg.get("tags", [])) + (["vertical"] if kind == "uniform" and cfg["from"][:2] == cfg["to"][:2] else []):
+                counts[kind + ":" + tg] = counts.get(kind + ":" + tg, 0) + 1
             if "zu_class" in cfg:
                 counts[kind + ":" + cfg["zu_class"]] = counts.get(kind + ":" + cfg["zu_class"], 0) + 1
             probe_cfg(ctx, cfg, rng)
@@ -445,7 +484,8 @@ def corr_expected(ctx):
         for cf in (True, False):
             for ct in (True, False):
                 for drm, irm in ((150.0, 300.0), (50.0, 300.0), (50.0, 80.0), (100.0, 100.0), (150.0, 80.0), (100.0, 300.0)):
-                    for angles in ((0.5, 0.7, 0.3), (0.5, None, 0.3), (None, 0.7, 0.3), (0.5, 0.7, None)):
+                    for angles in ((0.5, 0.7, 0.3), (0.5, None, 0.3), (None, 0.7, 0.3), (0.5, 0.7, None),
+                                   (0.0, 0.0, 0.0), (-0.0, 0.7, -0.0), (5e-324, 1e-300, 0.0), (0.0, None, 1e-17), (math.pi, 0.7, 0.0)):
                         tr = cls((0, 0, -100.0 if cf else 10.0), (100.0, 0, -200.0 if ct else 10.0), ice)
                         for nm, v in (("direct_r_max", drm), ("indirect_r_max", irm), ("direct_angle", angles[0]),
                                       ("indirect_angle_1", angles[1]), ("indirect_angle_2", angles[2])):
@@ -468,8 +508,9 @@ def corr_expected(ctx):
         ctx.case(key=("expected",) + tuple(str(x) for x in m))
         if list(r) != e:
             bad += 1
-            ctx.fail("expected:%r" % (m,), "%s expected_solutions/exists/solutions with contains=(%r,%r) rho=100 direct_r_max=%r indirect_r_max=%r angles=%r: implementation %r, model %r" % (
-                m + (e, list(r))), {"kind": "expected", "m": [str(x) for x in m], "impl": e, "model": list(r)})
+            if bad <= 2:          # leave room among the reported failures for the real-geometry witnesses of the probes
+                ctx.fail("expected:%r" % (m,), "%s expected_solutions/exists/solutions with contains=(%r,%r) rho=100 direct_r_max=%r indirect_r_max=%r angles=%r: implementation %r, model %r" % (
+                    m + (e, list(r))), {"kind": "expected", "m": [str(x) for x in m], "impl": e, "model": list(r)})
     ctx.oblige("corr:expected_solutions(%d scripted tracers)" % len(cases), bad == 0, "%d disagreements" % bad)
 
 
